@@ -130,6 +130,9 @@ def gen_steps(rng, obj, n, *, bad_rate=0.0, malformed_rate=0.0, setter_bias=1.0,
                              "f": rng.uniform(0.5, 2.0)}
             else:
                 f = 10 ** rng.uniform(-factor_decades, factor_decades)
+                if rng.chance(0.08):
+                    # a target next to the current value (but not equal to it)
+                    f = 1.0 + rng.choice([-1.0, 1.0]) * 10 ** rng.uniform(-9, -3)
                 dim = 3 if name == "volume" else 2 if name in ("surface_area", "area") else 1
                 s = f ** (1.0 / dim)
                 if not (ext_range[0] <= ext * s <= ext_range[1]) or (dist + ext) * s > coord_max:
@@ -143,6 +146,7 @@ def gen_steps(rng, obj, n, *, bad_rate=0.0, malformed_rate=0.0, setter_bias=1.0,
                 st["arg"] = {"kind": "factor", "f": f}
                 if name == "radius" and rng.chance(0.2):
                     st["arg"] = {"kind": "abs_zero"}
+        st["win"] = [ext_range[0], ext_range[1], coord_max]
         if (kind == "set" and "minimal_bounding" in st.get("prop", "")) and \
                 rng.chance(solver_fault_rate * 3):
             k = rng.choice([1, 1, 2, 3, 5, 9, 10])
@@ -157,6 +161,7 @@ def resolve_arg(obj, st, world=None):
     arg = st["arg"]
     name = st["prop"]
     kind = arg["kind"]
+    win = st.get("win")
     if kind in ("point", "malformed_point"):
         if kind == "malformed_point":
             return [0.5] * arg["n"], None
@@ -164,6 +169,11 @@ def resolve_arg(obj, st, world=None):
             p = np.array(arg["d"], float) * extent(obj)
         else:
             p = anchor(obj) + np.array(arg["d"], float) * extent(obj)
+            if win and float(np.linalg.norm(p)) + extent(obj) > win[2]:
+                # stay inside the coordinate window whatever the history did before
+                p = np.array(arg["d"], float) * extent(obj)
+                if float(np.linalg.norm(p)) + extent(obj) > win[2]:
+                    p = np.array(arg["d"], float) / (np.linalg.norm(arg["d"]) or 1.0) * extent(obj)
         if arg.get("as") == "list":
             return p.tolist(), None
         if arg.get("as") == "tuple":
@@ -180,7 +190,18 @@ def resolve_arg(obj, st, world=None):
         cur = None
     base = cur if (cur is not None and np.isfinite(cur) and cur > 0) else extent(obj)
     if kind == "factor":
-        return base * arg["f"], cur
+        f = arg["f"]
+        if win:
+            dim = 3 if name == "volume" else 2 if name in ("surface_area", "area") else 1
+            e, far = extent(obj), float(np.linalg.norm(anchor(obj)))
+
+            def inside(ff):
+                s = ff ** (1.0 / dim)
+                return win[0] <= e * s <= win[1] and (far + e) * s <= win[2]
+
+            if not inside(f):
+                f = 1.0 / f if inside(1.0 / f) else 1.0
+        return base * f, cur
     if kind == "bad":
         if arg["bad"] == "zero":
             return 0.0, cur
@@ -190,9 +211,12 @@ def resolve_arg(obj, st, world=None):
     raise KeyError(kind)
 
 
-def apply(obj, st, world):
+def apply(obj, st, world, scribble=False):
     """Run one step against the live object inside the simulated environment.
-    Returns dict(outcome='ok'|'raised', exc=..., value=assigned value, cur=...)."""
+    Returns dict(outcome='ok'|'raised', exc=..., value=assigned value, cur=...).
+
+    ``scribble``: hostile caller - an ndarray passed to a setter is overwritten in
+    place by the caller right after the call (the shape must have kept a copy)."""
     tgt = target_of(obj) if st.get("inner") else obj
     if tgt is None:
         tgt = obj
@@ -215,6 +239,10 @@ def apply(obj, st, world):
                 raise
             out["outcome"] = "raised"
             out["exc"] = e
+    if scribble and st["op"] == "set" and isinstance(out["value"], np.ndarray):
+        passed = out["value"]
+        out["value"] = passed.copy()
+        passed += 1.2345 * (1.0 + np.abs(passed))
     return out
 
 
